@@ -29,7 +29,7 @@ def canon_caps(tok):
 
 
 class SessionCheck(Check):
-    CASE_TIMEOUT = 120
+    CASE_TIMEOUT = 60
     """cases are {'transport','profile','flavor','gseed'[, 'cmds','extra_caps']}."""
     FLAVOR_WEIGHTS = {'normal': 3, 'fault': 2, 'odd': 1, 'close': 1, 'hello-timeout': 1, 'late-ready': 1}
     N_QUICK = 120
